@@ -29,8 +29,9 @@ import c01 as C01
 
 INC = os.path.join(HARNESS, "moddrv_c04.inc")
 WRAP = ["-Wl,--wrap=malloc,--wrap=calloc,--wrap=realloc,--wrap=free"]
-SYN_KEY = {"ber": "der", "uper": "uper", "oer": "oer", "xer": "xer"}
+SYN_KEY = {"ber": "der", "uper": "uvalid", "oer": "oer", "xer": "xer"}
 MODEL_CMD = {"ber": "berdec %s %s", "uper": "uperdec 0 %s %s", "oer": "oerdec %s %s"}
+MODEL_MAXVAL = 4000         # characters of a value string the model is asked to re-encode
 MODEL_MAXLEN = 300          # octets; the reference BER decoder is quadratic in the number of TLVs
 
 
@@ -91,9 +92,30 @@ def classify_crash(err, rc, meta, tree, mtext=""):
             and len(funcs) >= 1 and re.match(r"(\w+_decode_(uper|oer)@constr_|uper_decode@per_decoder|oer_decode@oer_decoder|uper_open_type_get_simple@per_opentype)", funcs[0])):
         return "C04-set-no-per-oer-null-call"
     if (funcs[:1] == ["SET_OF_encode_uper@constr_SET_OF.c"] and syn == "uper" and "asn_encode_to_new_buffer@asn_application.c" in funcs
-            and ("_el_buffer" in err or "SEGV" in err) and meta.get("dec_rerun", {}).get("ck") == -1):
+            and ("_el_buffer" in err or "SEGV" in err) and unencodable_value(meta.get("dec_rerun"), tree)):
         return "C04-setof-encode-uper-null"
+    if "stack-overflow" in (err or "") or (rc in (-11, 139) and not site):
+        if syn == "xer" and any(re.match(r"(\w+_decode_xer|xer_decode\w*)@", f) for f in funcs[:6]):
+            return "C15-xer-no-stack-guard"
+        if syn == "oer" and funcs[:1] == ["CHOICE_decode_oer@constr_CHOICE_oer.c"]:
+            return "C15-oer-choice-no-stack-guard"
     return None
+
+
+def unencodable_value(rerun, tree):
+    """the decoded value (as `dec` reports it) violates a constraint: asn_check_constraints says so, or its DER walked
+    along the model type holds a value outside a non-extensible PER-visible constraint (the generated checkers miss
+    some: C08 findings)"""
+    if not rerun:
+        return False
+    if rerun.get("ck") == -1:
+        return True
+    if tree is None:
+        return False
+    try:
+        return bool(BerAccepted(tree, bytes.fromhex(rerun["der"])).out_of_constraint())
+    except (ValueError, IndexError):
+        return False
 
 
 def eoc_zero_nonzero(data):
@@ -198,8 +220,9 @@ def reencode_taint(m):
             return "C16-ulong-signed"
         if meta["syn"] == "uper":
             try:
-                if BerAccepted(tree, bytes.fromhex(r["der"])).lists_above_bound():
-                    return "C04-uper-count-above-bound"
+                acc = BerAccepted(tree, bytes.fromhex(r["der"]))
+                if acc.lists_above_bound() or acc.ints_above_bound():
+                    return "C04-uper-field-above-bound"
             except (ValueError, IndexError):
                 pass
         return None
@@ -216,10 +239,34 @@ def der_has_negative_prim(derhex):
     return any((not cons) and c1 > c0 and b[c0] >= 0x80 for (t0, l0, c0, c1, cons, d) in ber_walk(b))
 
 
+PROBE_TY = "c{x250i8[*,*,0]x254b4x65537n20x3o16[0,*,0]i8[0,7,0]}"      # MS0.CH1: canonical order is not an involution
+
+
+def uper_modes(model, cases, mods):
+    """which reading of the model is the C's for each case: /repo commit b565b4c (fix of the swapped CHOICE order
+    tables) made the C write the canonical CHOICE index; coq/Rt/Uper.v follows with `cstd` (std=false then differs from
+    std=true only in the semi-constrained INTEGER).  While a model without that change is checked out, std=false still
+    has the old index: then std=true is the C's reading for types without semi-constrained INTEGER, and types with both
+    features have no faithful reading (UPER refinement skipped, the C's own encoding seeds the mutants)."""
+    o = run_lines(model, ["uper 0 %s C2:N" % PROBE_TY, "uper 1 %s C2:N" % PROBE_TY])[1]
+    model_has_fix = (o[0] == o[1])
+    byname = {m["name"]: m for m in mods}
+    for c in cases:
+        tree = c["mod"]["trees"][c["tn"]]
+        if model_has_fix or not C02.has_noninvolutive_choice(tree):
+            c["umode"], c["uvalid"] = 0, c["uper"]
+        elif not C02.has_semi(tree):
+            c["umode"], c["uvalid"] = 1, c["uperstd"]
+        else:
+            c["umode"], c["uvalid"] = None, None
+    return model_has_fix
+
+
 def model_layer(run, rng, tier, model):
     nm, nt, nv = (8, 5, 5) if tier == "quick" else (40, 6, 10)
     mods, cases = build_corpus(run, rng, nm, nt, nv, tier, tag="mods", moddrv_extra=INC, extra_ldflags=WRAP)
     tlog("model: corpus of %d modules, %d cases built" % (len(mods), len(cases)))
+    run.cov["model_has_choice_order_fix"] = uper_modes(model, cases, mods)
     bm = by_module(cases)
     for m in mods:
         if not m.get("exe"):
@@ -228,12 +275,16 @@ def model_layer(run, rng, tier, model):
     jobs = []
     live = [m for m in mods if m.get("exe")]
     # XER text of every value, from the C
-    xjobs = [(m["exe"], ["xcode %s der %s xer" % (c["tn"], c["der"]) for c in bm.get(m["name"], [])]) for m in live]
+    xjobs = [(m["exe"], [l for c in bm.get(m["name"], []) for l in ("xcode %s der %s xer" % (c["tn"], c["der"]), "xcode %s der %s uper" % (c["tn"], c["der"]))])
+             for m in live]
     xres = run_many(xjobs)
     for m, (exe, xl), (xo, xe) in zip(live, xjobs, xres):
         cs = bm.get(m["name"], [])
-        for c, o in zip(cs, xo):
+        for k, c in enumerate(cs):
+            o, ou = xo[2 * k], xo[2 * k + 1]
             c["xer"] = o.split()[1] if o.startswith("OK ") else "NONE"
+            if c["uvalid"] is None:
+                c["uvalid"] = ou.split()[1] if ou.startswith("OK ") else "NONE"
         for k, info in xe.items():
             report_crash(run, m, xl[k], {"tn": xl[k].split()[1], "syn": "ber", "kind": "valid", "data": b""}, info, "model")
         lines, metas, seen = [], [], set()
@@ -278,20 +329,48 @@ def model_layer(run, rng, tier, model):
         allres.append(results)
         for i, me in enumerate(metas):
             if me["syn"] in MODEL_CMD and len(me["data"]) <= MODEL_MAXLEN and results[i] is not None:
-                mlines.append(MODEL_CMD[me["syn"]] % (me["case"]["ts"], hexs(me["data"])))
+                if me["syn"] == "uper":
+                    if me["case"]["umode"] is None:
+                        run.count("uper_no_faithful_reading")
+                        continue
+                    mlines.append("uperdec %d %s %s" % (me["case"]["umode"], me["case"]["ts"], hexs(me["data"])))
+                else:
+                    mlines.append(MODEL_CMD[me["syn"]] % (me["case"]["ts"], hexs(me["data"])))
                 mwhere.append((len(allres) - 1, i))
     # ---- one-directional refinement against the reference decoders
-    mo = model_par(model, mlines)
-    tlog("model: reference decoders done (%d lines)" % len(mlines))
-    acc = [(w, o.split()) for w, o in zip(mwhere, mo) if o.startswith("OK ")]
+    # inputs whose decoding cost is not bounded by their length (count-bounded loops over zero-size elements) run
+    # under resource limits, one process each; LIMIT = no statement about that input
+    if os.environ.get("C04_DUMP_MLINES"):
+        open(os.environ["C04_DUMP_MLINES"], "w").write("\n".join(mlines) + "\n")
+        raise SystemExit(3)
+    risky = [k for k, (j, i) in enumerate(mwhere)
+             if jobs[j][2][i]["syn"] in ("oer", "uper") and zero_size_elem_list(jobs[j][0]["trees"][jobs[j][2][i]["tn"]], jobs[j][2][i]["syn"])]
+    rs = set(risky)
+    safe = [k for k in range(len(mwhere)) if k not in rs]
+    mo = [None] * len(mlines)
+    for k, o in zip(safe, model_par(model, [mlines[k] for k in safe])):
+        mo[k] = o
+    for k, o in zip(risky, model_guarded(model, [mlines[k] for k in risky])):
+        mo[k] = o
+    run.count("model_guarded_lines", len(risky))
+    mo = ["LIMIT" if o.startswith("EXN") else o for o in mo]
+    run.count("model_resource_limit", sum(1 for o in mo if o == "LIMIT"))
+    tlog("model: reference decoders done (%d lines, %d under resource limits)" % (len(mlines), len(risky)))
+    acc_all = [(w, o.split()) for w, o in zip(mwhere, mo) if o.startswith("OK ")]
+    # a value of thousands of zero-size elements (the only way a <= 300 octet input yields a long value) is not
+    # re-encoded by the model (its DER of a SET OF sorts by insertion): only the verdict is compared
+    acc = [(w, f) for (w, f) in acc_all if len(f[2]) <= MODEL_MAXVAL]
+    huge = {w: (int(f[1]), f[2], None) for (w, f) in acc_all if len(f[2]) > MODEL_MAXVAL}
     do = model_par(model, ["der %s %s" % (jobs[j][2][i]["case"]["ts"], f[2]) for (j, i), f in acc])
     accepted = {w: (int(f[1]), f[2], d) for (w, f), d in zip(acc, do)}
+    accepted.update(huge)
     # types whose UPER encoding has no bits at all (the model then accepts ANY buffer, reporting one octet; the C's
     # uper_decode_complete wants that octet to exist and to be zero: X.691 11.1.3)
     tss = sorted(set(c["ts"] for c in cases))
     zb = model_par(model, ["uperdec 0 %s -" % ts for ts in tss])
     zero_bit = {ts for ts, o in zip(tss, zb) if o.startswith("OK ")}
     tlog("model: re-encodings done (%d accepted)" % len(acc))
+    mo_of = dict(zip(mwhere, mo))
     for (j, i) in mwhere:
         m, lines, metas = jobs[j]
         outs = cres[j][0]
@@ -307,10 +386,16 @@ def model_layer(run, rng, tier, model):
                 exp = ("MORE", 0, "-") if len(data) == 0 else (("OK", 1, d) if data[0] == 0 else ("FAIL", 0, "-"))
                 run.count("uper_zero_bit_type")
                 good = (r["rc"], r["consumed"], r["der"]) == exp
+            elif d is None:
+                run.count("model_value_too_large")
+                good = (r["rc"] == "OK" and r["consumed"] == n)
+                d = "(not computed)"
             else:
                 good = (r["rc"] == "OK" and r["consumed"] == n and r["der"] == d)
             if not good:
                 refine_disagreement(run, m, lines[i], outs[i], me, r, n, v, d)
+        elif mo_of[(j, i)] == "LIMIT":
+            run.count("model_%s_unknown" % syn)
         else:
             run.count("model_%s_rejects" % syn)
             if r["rc"] == "OK":
@@ -482,7 +567,8 @@ def refine_disagreement(run, m, line, o, me, r, n, v, d):
     run.violation("refinement:Rt.%s_dec" % syn, rep)
 
 
-FOREIGN_IDS = {"C01-choice-ref-no-per", "C01-uper-semiconstrained-lb", "C16-umax-negative", "C16-ulong-signed"}
+FOREIGN_IDS = {"C01-choice-ref-no-per", "C01-uper-semiconstrained-lb", "C16-umax-negative", "C16-ulong-signed",
+               "C15-xer-no-stack-guard", "C15-oer-choice-no-stack-guard"}
 
 
 def all_findings():
@@ -497,6 +583,9 @@ def all_findings():
 
 
 def main(tier):
+    if os.environ.get("C04_TRACE_AFTER"):
+        import faulthandler
+        faulthandler.dump_traceback_later(int(os.environ["C04_TRACE_AFTER"]), repeat=False)
     run = Run("C04", tier)
     run.findings = all_findings()
     rng = Rng(run.seed)
